@@ -831,6 +831,45 @@ func families() []family {
 		{"long-id", func(n int) (string, []string) { return "LicenseRef-" + strings.Repeat("a", n), []string{"MIT"} }, scale(65536, 1<<20), 0},
 		{"long-unknown-id", func(n int) (string, []string) { return strings.Repeat("a", n), []string{"MIT"} }, scale(65536, 1<<20), 0},
 		{"or-later-rewrites", func(n int) (string, []string) { return rep("Apache-2.0-or-later", " AND ", n), []string{"Apache-2.0"} }, scale(128, 512), 0},
+		// explicit nesting to one side (a helper that walks the left operand twice doubles its work per level)
+		{"and-left-nested", func(n int) (string, []string) {
+			e := id(0)
+			for i := 1; i <= n; i++ {
+				e = "(" + e + " AND " + id(i) + ")"
+			}
+			return e, someIDs
+		}, scale(128, 512), 0},
+		{"or-left-nested", func(n int) (string, []string) {
+			e := id(0)
+			for i := 1; i <= n; i++ {
+				e = "(" + e + " OR " + id(i) + ")"
+			}
+			return e, []string{"FSFAP"}
+		}, scale(128, 512), 0},
+		{"and-right-nested", func(n int) (string, []string) {
+			e := id(0)
+			for i := 1; i <= n; i++ {
+				e = "(" + id(i) + " AND " + e + ")"
+			}
+			return e, someIDs
+		}, scale(128, 512), 0},
+		// every spelling that makes the scanner rebuild its buffer, repeated
+		{"rewrite-plus-chain", func(n int) (string, []string) {
+			sp := []string{"MIT-or-later+", "Zlib-or-later+", "Apache-2.0-or-later+", "ISC-or-later+"}
+			p := make([]string, n)
+			for i := range p {
+				p[i] = sp[i%len(sp)]
+			}
+			return strings.Join(p, " AND ") + " AND ISC", []string{"MIT", "Zlib", "Apache-2.0", "ISC"}
+		}, scale(128, 512), 0},
+		{"mixed-suffix-chain", func(n int) (string, []string) {
+			sp := []string{"Apache-2.0-or-later+", "MIT-or-later", "GPL-2.0-or-later+", "ISC+", "GPL-2.0-only+", "(MPL-2.0-or-later)", "LGPL-2.1++"}
+			p := make([]string, n)
+			for i := range p {
+				p[i] = sp[i%len(sp)]
+			}
+			return strings.Join(p, " OR "), []string{"FSFAP"}
+		}, scale(128, 512), 0},
 		{"many-spaces", func(n int) (string, []string) { return "MIT" + strings.Repeat(" ", n) + "AND ISC", []string{"MIT", "ISC"} }, scale(65536, 1<<20), 0},
 		{"plus-run", func(n int) (string, []string) { return "MIT" + strings.Repeat("+", n), []string{"MIT"} }, scale(4096, 65536), 0},
 		// chains of DISTINCT terms (LicenseRefs: listed ids run out at ~700) and lists with many redundant entries
